@@ -17,7 +17,8 @@ RULE = ("Hypothesis draws a square operator tree (Dense, Identity, Diagonal, Sca
         "reference matrix (exact equality for integer payloads, which also pins the length) and trace = sum. If the generic "
         "probing rule is selected any exception or mismatch is a violation; a structural rule must return the reference "
         "values or refuse from inside diag_trace.py. Non-trivial: k != 0, or n > 100, or a composite operator."
-        " Further: Exact(pbar=True).")
+        " Further: Exact(pbar=True)."
+        " Round 5: a small (repeated) block before a larger one with an offset between the two block sizes.")
 ASSUMPTIONS = [
     "a refusal is an exception whose innermost cola frame is diag_trace.py (e.g. the documented k != 0 asserts of BlockDiag/Kronecker/KronSum); it is tallied, never a pass of the value check",
     "integer payloads: exact equality of values and length",
